@@ -50,6 +50,19 @@ struct Plain { a: u8, b: u32, c: (u16, u8) }
 #[derive(Debug, PartialEq, Clone, Copy)]
 struct Tup(u8, (u32, u8), [u16; 2]);
 
+/// F10 regression: a user trait with a method called `len`, implemented for arrays, is in scope
+/// where the array macros are invoked; they must not pick it up
+mod hijack {
+    pub trait Shape { fn len(&self) -> usize; fn next(&self) -> usize; }
+    impl<T, const N: usize> Shape for [T; N] { fn len(&self) -> usize { 0 } fn next(&self) -> usize { 0 } }
+    pub const fn mapped() -> [u64; 3] { konst::array::map!([1u64, 2, 3], |x| x + 1) }
+    pub const fn made() -> [usize; 4] { konst::array::from_fn!(|i| i * 2) }
+    pub const fn mapped_val() -> [u32; 2] { konst::array::map_!([5u32, 6], |x| x * 2) }
+    pub const fn made_val() -> [u8; 3] { konst::array::from_fn_!(|i| i as u8 + 1) }
+    pub const fn collected() -> [u8; 2] { konst::iter::collect_const!(u8 => &[1u8, 2, 3], copied(), skip(1)) }
+    pub const fn concatenated() -> [u8; 3] { konst::slice::slice_concat!(u8, &[&[1], &[2, 3]]) }
+}
+
 const fn d_p1(p: P1) -> (u8, u32, u64) { konst::destructure!{P1(a, b, c) = p} (a, b, c) }
 const fn d_p2(p: P2) -> (u8, u32, u64) { konst::destructure!{P2(a, b, c) = p} (a, b, c) }
 const fn d_p4(p: P4) -> (u8, u64, u16) { konst::destructure!{P4{a, b, c} = p} (a, b, c) }
@@ -340,6 +353,12 @@ for c in ["'a'", "'\\u{7f}'", "'\\u{80}'", "'\\u{7ff}'", "'\\u{800}'", "'\\u{d7f
 for n in ["0", "0x7f", "0xd7ff", "0xd800", "0xdfff", "0xe000", "0x10ffff", "0x110000", "u32::MAX"]:
     case("chr", "Option<char>", "chr::from_u32(%s)" % n)
 # array builders
+case("array", "[u64; 3]", "hijack::mapped()")
+case("array", "[usize; 4]", "hijack::made()")
+case("array", "[u32; 2]", "hijack::mapped_val()")
+case("array", "[u8; 3]", "hijack::made_val()")
+case("array", "[u8; 2]", "hijack::collected()")
+case("array", "[u8; 3]", "hijack::concatenated()")
 case("array", "[u16; 5]", "array::map!(ARR, |x| x + 1)")
 case("array", "[u8; 0]", "array::map!([0u8; 0], |x: u8| x + 1)")
 case("array", "[usize; 4]", "array::from_fn!(|i| i * i)")
